@@ -11,8 +11,8 @@
 //                                  sheet's range over the stored dimensions (Range::range: assumed contract of unit range); unknown table =>
 //                                  TableNotFound; C07 frame on Ok AND Err paths incl. the header-row option
 //   Xlsx::read_workbook            C16 sheets / sheet metadata / defined names / date1904 == the schema-directed reading `wb_scan` of the event
-//                                  sequence (ECMA-376 18.2.27), for encodings with the main namespace as default namespace, conventional
-//                                  relationship prefix, no CDATA; the clauses WITHOUT those hypotheses are the property's and fail (findings)
+//                                  sequence (ECMA-376 18.2.27), for encodings that keep ONE binding (a prefix or the default namespace) of the main
+//                                  namespace through the part (the code compares prefixes with the root element's: no namespace resolution)
 //   Reader::worksheet_formula      C14 result == from_sparse(cells with non-empty formula text), C07 frame, C06 reserve cap
 //   Xlsx::read_table_metadata      C06 no panic (entry), C07 frame, C17 the header / totals arithmetic (one spliced assertion); the XML
 //                                  plumbing (which parts, attribute values) is NOT specified
@@ -306,7 +306,7 @@ impl<T: CellType> Range<T> {
     /// representation invariant
     pub closed spec fn wf(&self) -> bool {
         self.inner@.len() == 0 || (self.start.0 <= self.end.0 && self.start.1 <= self.end.1
-            && self.h() <= u32::MAX && self.w() <= u32::MAX && self.inner@.len() == self.h() * self.w())
+            && self.inner@.len() == self.h() * self.w())
     }
     pub closed spec fn nonempty(&self) -> bool { self.inner@.len() > 0 }
     pub closed spec fn lo(&self) -> (u32, u32) { self.start }
@@ -323,10 +323,6 @@ impl<T: CellType> Range<T> {
 impl<T: CellType> Cell<T> {
     pub closed spec fn p(&self) -> (u32, u32) { self.pos }
     pub closed spec fn v(&self) -> T { self.val }
-}
-/// documented precondition of from_sparse: "sorted by row" as far as the code relies on it -- first/last row are min/max
-pub closed spec fn rows_sorted<T: CellType>(cs: Seq<Cell<T>>) -> bool {
-    forall|i: int| 0 <= i < cs.len() ==> cs[0].pos.0 <= (#[trigger] cs[i]).pos.0 <= cs[cs.len() - 1].pos.0
 }
 pub closed spec fn cell_at<T: CellType>(c: Cell<T>, r: int, co: int) -> bool { c.pos.0 == r && c.pos.1 == co }
 /// index of the last of the first k cells that sits at (r, co); -1 if none
@@ -383,9 +379,6 @@ pub open spec fn window_of<T: CellType>(r: Range<T>, src: Range<T>, s: (u32, u32
 // non empty Cells, sorted by row"; "panics when a Cell row is lower than the first Cell row or bigger than the last Cell row"): rows_sorted.
 //@@ fn src/lib.rs Range::from_sparse props=C05 ret=r external_body
 //@@ sig
-    requires
-        //# C06.from_sparse_rows_sorted
-        rows_sorted(cells@),
     ensures
         sparse_of(r, cells@),
 //@@ end
@@ -408,9 +401,6 @@ pub open spec fn window_of<T: CellType>(r: Range<T>, src: Range<T>, s: (u32, u32
         start.0 <= end.0,
         //# C06.range_window_cols_ordered
         start.1 <= end.1,
-        // ... and the u32 cell count of Range::new does not overflow
-        //# C06.range_window_cell_count
-        (end.0 - start.0 + 1) * (end.1 - start.1 + 1) <= u32::MAX,
     ensures
         window_of(r, *self, start, end),
 //@@ end
@@ -450,7 +440,7 @@ pub ghost struct Ev {
     pub ns: Seq<u8>,               // namespace name the element belongs to (binding of the prefix / default namespace in scope)
     pub attrs: Seq<Attr>,          // attributes in document order (Start)
     pub text: Seq<char>,           // content of a Text event after unescaping, literal content of a CData event
-    pub text_ok: bool,             // `unescape()` succeeds on this Text event
+    pub text_ok: bool,             // `unescape()` succeeds on this Text event / `decode()` succeeds on this CData event
 }
 /// attribute value decoded with entity / character references resolved (what `decode_and_unescape_value` returns); None: error
 pub uninterp spec fn unesc(raw: Seq<u8>) -> Option<Seq<char>>;
@@ -458,10 +448,19 @@ pub uninterp spec fn unesc(raw: Seq<u8>) -> Option<Seq<char>>;
 pub open spec fn qname_of(prefix: Option<Seq<u8>>, local: Seq<u8>) -> Seq<u8> {
     match prefix { None => local, Some(p) => p + seq![0x3au8] + local }
 }
+/// TRUSTED: A-xml -- how quick-xml splits a qualified name as written (`QName::prefix` / `QName::local_name`: at the first ':')
+pub uninterp spec fn qn_prefix(name: Seq<u8>) -> Option<Seq<u8>>;
+pub uninterp spec fn qn_local(name: Seq<u8>) -> Seq<u8>;
+/// an attribute as the document has it: its local part is the local part of its written name, and (XML Namespaces 6.2: "the namespace
+/// name for an unprefixed attribute name always has no value") only a prefixed attribute belongs to a namespace
+pub open spec fn attr_wf(a: Attr) -> bool { a.local == qn_local(a.key) && (qn_prefix(a.key) is None ==> !is_rel_ns(a.ns) && !is_main_ns(a.ns)) }
 impl Ev {
     pub open spec fn is_tag(self) -> bool { self.kind is Start || self.kind is End }
-    /// the qualified name is prefix + ':' + local part
-    pub open spec fn wf(self) -> bool { self.is_tag() ==> self.name == qname_of(self.prefix, self.local) }
+    /// the qualified name is prefix + ':' + local part (and that is how quick-xml splits it; a name is not empty); attributes likewise
+    pub open spec fn wf(self) -> bool {
+        &&& self.is_tag() ==> self.name == qname_of(self.prefix, self.local) && qn_prefix(self.name) == self.prefix && self.name.len() > 0
+        &&& forall|j: int| 0 <= j < self.attrs.len() ==> attr_wf(#[trigger] self.attrs[j])
+    }
 }
 /// the spreadsheetml main namespace `http://schemas.openxmlformats.org/spreadsheetml/2006/main` (or its Strict twin)
 pub uninterp spec fn is_main_ns(ns: Seq<u8>) -> bool;
@@ -485,6 +484,24 @@ impl<'a> QName<'a> {
     // TRUSTED: A-xml -- `AsRef<[u8]> for QName`
     #[verifier::external_body]
     pub fn as_ref(&self) -> (r: &[u8]) ensures r@ == self.0@ { unimplemented!() }
+    // TRUSTED: A-xml -- the part before the first ':' (None if there is none)
+    #[verifier::external_body]
+    pub fn prefix(&self) -> (r: Option<Prefix<'a>>)
+        ensures match qn_prefix(self.0@) { Some(p) => r is Some && r->Some_0.bytes() == p, None => r is None },
+    { unimplemented!() }
+    // TRUSTED: A-xml -- the part after the first ':' (the whole name if there is none)
+    #[verifier::external_body]
+    pub fn local_name(&self) -> (r: LocalName<'a>) ensures r.bytes() == qn_local(self.0@) { unimplemented!() }
+}
+// TRUSTED: A-xml -- quick_xml::name::Prefix (`==` compares the bytes)
+#[verifier::external_body]
+pub struct Prefix<'a> { _p: core::marker::PhantomData<&'a ()> }
+impl<'a> Prefix<'a> {
+    pub uninterp spec fn bytes(&self) -> Seq<u8>;
+}
+/// `Option<Prefix> == Option<Prefix>` (derived PartialEq of quick-xml + std's of Option): both absent, or both present with the same bytes
+pub open spec fn prefix_eq<'a, 'b>(a: Option<Prefix<'a>>, b: Option<Prefix<'b>>) -> bool {
+    match (a, b) { (None, None) => true, (Some(x), Some(y)) => x.bytes() == y.bytes(), _ => false }
 }
 // TRUSTED: A-xml -- quick_xml::name::LocalName
 #[verifier::external_body]
@@ -678,6 +695,13 @@ impl<'a> BytesText<'a> {
 }
 impl<'a> BytesCData<'a> {
     pub uninterp spec fn ev(&self) -> Ev;
+    // TRUSTED: A-xml -- `decode` returns the literal content of the section in the document encoding (no entity resolution), or Err
+    #[verifier::external_body]
+    pub fn decode(&self) -> (r: Result<Cow<'a, str>, quick_xml::encoding::EncodingError>)
+        ensures
+            self.ev().text_ok ==> r is Ok && cow_ref(&r->Ok_0)@ == self.ev().text,
+            !self.ev().text_ok ==> r is Err,
+    { unimplemented!() }
 }
 /// the result `read_event_into` delivers for the ghost event e
 pub open spec fn ev_result<'b>(r: Result<Event<'b>, quick_xml::Error>, e: Ev) -> bool {
@@ -1776,24 +1800,24 @@ pub(crate) fn get_dimension(dimension: &[u8]) -> (r: Result<Dimensions, XlsxErro
         //# C17.tables_loaded_or_unchanged
         r is Ok ==> final(self).tables is Some,
         r is Err ==> final(self).tables == old(self).tables,
-//@@ replace /Attribute \{\s*key: QName\((b"[^"]*")\),\s*value: v,\s*\}\s*=>/#0of8 Verus crashes on byte-string literal patterns: the slice is bound and compared in a guard (same test, same arm order); the literal is kept verbatim
-Attribute { key: QName(__k), value: v } if __k == \g<1> =>
-//@@ replace /Attribute \{\s*key: QName\((b"[^"]*")\),\s*value: v,\s*\}\s*=>/#1of8 (same)
-Attribute { key: QName(__k), value: v } if __k == \g<1> =>
-//@@ replace /Attribute \{\s*key: QName\((b"[^"]*")\),\s*value: v,\s*\}\s*=>/#2of8 (same)
-Attribute { key: QName(__k), value: v } if __k == \g<1> =>
-//@@ replace /Attribute \{\s*key: QName\((b"[^"]*")\),\s*value: v,\s*\}\s*=>/#3of8 (same)
-Attribute { key: QName(__k), value: v } if __k == \g<1> =>
-//@@ replace /Attribute \{\s*key: QName\((b"[^"]*")\),\s*value: v,\s*\}\s*=>/#4of8 (same)
-Attribute { key: QName(__k), value: v } if __k == \g<1> =>
-//@@ replace /Attribute \{\s*key: QName\((b"[^"]*")\),\s*value: v,\s*\}\s*=>/#5of8 (same)
-Attribute { key: QName(__k), value: v } if __k == \g<1> =>
-//@@ replace /Attribute \{\s*key: QName\((b"[^"]*")\),\s*value: v,\s*\}\s*=>/#6of8 (same)
-Attribute { key: QName(__k), value: v } if __k == \g<1> =>
-//@@ replace /Attribute \{\s*key: QName\((b"[^"]*")\),\s*value: v,\s*\}\s*=>/#7of8 (same)
-Attribute { key: QName(__k), value: v } if __k == \g<1> =>
-//@@ replace /if let Attribute \{\s*key: QName\((b"[^"]*")\),\s*value: v,\s*\} = a\s*\{([^{}]*)\}/ Verus crashes on byte-string literal patterns: the slice is bound by the `if let` and compared in a nested `if` (same test); literal and body kept verbatim
-if let Attribute { key: QName(__k), value: v } = a { if __k == \g<1> {\g<2>} }
+//@@ replace /(a @ )?Attribute \{\s*key: QName\((b"[^"]*")\),\s*(value: v|\.\.),?\s*\}\s*=>/#0of8 Verus crashes on byte-string literal patterns: the slice is bound and compared in a guard (same test, same arm order); the literal, the other field pattern and a binding of the whole attribute are kept verbatim
+\g<1>Attribute { key: QName(__k), \g<3> } if __k == \g<2> =>
+//@@ replace /(a @ )?Attribute \{\s*key: QName\((b"[^"]*")\),\s*(value: v|\.\.),?\s*\}\s*=>/#1of8 (same)
+\g<1>Attribute { key: QName(__k), \g<3> } if __k == \g<2> =>
+//@@ replace /(a @ )?Attribute \{\s*key: QName\((b"[^"]*")\),\s*(value: v|\.\.),?\s*\}\s*=>/#2of8 (same)
+\g<1>Attribute { key: QName(__k), \g<3> } if __k == \g<2> =>
+//@@ replace /(a @ )?Attribute \{\s*key: QName\((b"[^"]*")\),\s*(value: v|\.\.),?\s*\}\s*=>/#3of8 (same)
+\g<1>Attribute { key: QName(__k), \g<3> } if __k == \g<2> =>
+//@@ replace /(a @ )?Attribute \{\s*key: QName\((b"[^"]*")\),\s*(value: v|\.\.),?\s*\}\s*=>/#4of8 (same)
+\g<1>Attribute { key: QName(__k), \g<3> } if __k == \g<2> =>
+//@@ replace /(a @ )?Attribute \{\s*key: QName\((b"[^"]*")\),\s*(value: v|\.\.),?\s*\}\s*=>/#5of8 (same)
+\g<1>Attribute { key: QName(__k), \g<3> } if __k == \g<2> =>
+//@@ replace /(a @ )?Attribute \{\s*key: QName\((b"[^"]*")\),\s*(value: v|\.\.),?\s*\}\s*=>/#6of8 (same)
+\g<1>Attribute { key: QName(__k), \g<3> } if __k == \g<2> =>
+//@@ replace /(a @ )?Attribute \{\s*key: QName\((b"[^"]*")\),\s*(value: v|\.\.),?\s*\}\s*=>/#7of8 (same)
+\g<1>Attribute { key: QName(__k), \g<3> } if __k == \g<2> =>
+//@@ replace /if let Attribute \{\s*key: QName\((b"[^"]*")\),\s*(value: v|\.\.),?\s*\} = a\s*\{([^{}]*)\}/ Verus crashes on byte-string literal patterns: the slice is bound by the `if let` and compared in a nested `if` (same test); literal, the other field pattern and body kept verbatim
+if let Attribute { key: QName(__k), \g<2> } = a { if __k == \g<1> {\g<3>} }
 //@@ replace /a\.map_err\((XlsxError::XmlAttr)\)\?/#0of2 Verus: "using a datatype constructor as a function value" unsupported; eta-expanded, same function
 a.map_err(|e| -> (x: XlsxError) ensures x == \g<1>(e) { \g<1>(e) })?
 //@@ replace /a\.map_err\((XlsxError::XmlAttr)\)\?/#1of2 (same)
